@@ -387,6 +387,79 @@ class Rewriter:
         self.hit('W6p', n)
         return text
 
+    # ---- W19: `match X { T::CONST => a, U::CONST => b, _ => c }` -> if/else-if chain on `X == T::CONST` ---------
+    def w19(self, text):
+        n = 0
+        while True:
+            m = mask(text)
+            hit = None
+            for mm in re.finditer(r'\bmatch\s+([^{;]+?)\s*\{', m):
+                ob = mm.end() - 1
+                cb = match_close(m, ob)
+                body_m, body = m[ob + 1:cb], text[ob + 1:cb]
+                # split arms
+                arms, i, L = [], 0, len(body)
+                ok = True
+                while i < L:
+                    while i < L and body_m[i].isspace():
+                        i += 1
+                    if i >= L:
+                        break
+                    ar = body_m.find('=>', i)
+                    if ar < 0:
+                        ok = False
+                        break
+                    pat = body[i:ar].strip()
+                    j = ar + 2
+                    while j < L and body_m[j].isspace():
+                        j += 1
+                    if j < L and body_m[j] == '{':
+                        e = match_close(body_m, j)
+                        expr = body[j:e + 1]
+                        j = e + 1
+                        while j < L and body_m[j].isspace():
+                            j += 1
+                        if j < L and body_m[j] == ',':
+                            j += 1
+                    else:
+                        depth, k = 0, j
+                        while k < L:
+                            ch = body_m[k]
+                            if ch in '([{':
+                                depth += 1
+                            elif ch in ')]}':
+                                depth -= 1
+                            elif ch == ',' and depth == 0:
+                                break
+                            k += 1
+                        expr = body[j:k].strip()
+                        j = k + 1
+                    arms.append((pat, expr))
+                    i = j
+                if not ok or not arms:
+                    continue
+                consts = [p for p, _ in arms if re.match(r'^[A-Za-z_][\w:<>]*::[A-Z][A-Z0-9_]*$', p)]
+                others = [p for p, _ in arms if p not in consts]
+                if not consts or others not in ([], ['_']) or arms[-1][0] not in consts + ['_']:
+                    continue
+                scrut = text[mm.start(1):mm.end(1)].strip()
+                parts = []
+                for k, (p, e) in enumerate(arms):
+                    if p == '_':
+                        parts.append(' else { %s }' % e)
+                    else:
+                        parts.append('%sif m__ == %s { %s }' % ('' if k == 0 else ' else ', p, e))
+                if '_' not in [p for p, _ in arms]:
+                    parts.append(' else { unreachable!() }')
+                hit = (mm.start(), cb + 1, '{ let m__ = %s; %s }' % (scrut, ''.join(parts)))
+                break
+            if not hit:
+                break
+            text = text[:hit[0]] + hit[2] + text[hit[1]:]
+            n += 1
+        self.hit('W19', n)
+        return text
+
     # ---- W8: awaiting a futures oneshot receiver -> stand-in method ---------------------------------
     def w8(self, text):
         t, k = re.subn(r'\b(\w*receiver)\s*\.await\b', r'\1.recv().await', text)
